@@ -43,7 +43,25 @@ class StatsRun:
         self.mon = Actor(w, "mon")
         self.mon.open()
         self.mon.handshake("v2v1", req_id=90, logger=True, name=b"monitor", pid=9090)
-        self.mon.subscribe(ALL)
+        # watcher mode: nobody is permanently subscribed to MESSAGE_TRAFFIC (or to ALL): the monitor subscribes to
+        # every other type individually and a separate watcher comes and goes
+        self.watch_mode = (not self.notw[0]) and ch.flag("cfg.watcher", 1, 3)
+        self.mon_types = set()
+        self.watcher = None
+        self.watching = False
+        if self.watch_mode:
+            base_types = [C.MT_CLIENT_INFO, C.MT_CLIENT_CLOSED, C.MT_FAILED_MESSAGE, C.MT_ACTIVE_CLIENTS,
+                          C.MT_TIMING_MESSAGE] + list(C.LOG_TYPES)
+            for t in base_types:
+                self.mon.subscribe(t)
+                self.mon_types.add(t)
+            self.watcher = Actor(w, "watcher")
+            self.watcher.open()
+            # (a logger, so that it is waited for and never skipped when it *is* subscribed)
+            self.watcher.handshake("v2v1", req_id=95, pid=9595, name=b"watcher", logger=True)
+            self.res.probes["watcher_mode"] += 1
+        else:
+            self.mon.subscribe(ALL)
         self.pubs = []
         self.pids = {90: {9090}}
         n = 1 + ch.pick("cfg.npubs", 4)
@@ -71,8 +89,10 @@ class StatsRun:
         for a in self.pubs:
             if a.req_id == 0:
                 a.learn_id()
+        self.view_seq = w.net.seq
+        self.view_t = w.clock.now
         # optional ordinary subscribers, so forwarding really fans out
-        if ch.flag("cfg.subscriber", 1, 2) or self.notw[0]:
+        if (ch.flag("cfg.subscriber", 1, 2) or self.notw[0]) and not self.watch_mode:
             s = Actor(w, "sub")
             s.open()
             s.handshake("v2v1", req_id=70, pid=7070)
@@ -112,6 +132,19 @@ class StatsRun:
         if d == 1 and ch.flag("iv.huge", 1, 25):
             per = ch.choose("iv.hugecount", [40000, 65535, 40000, 65534])
             self.res.probes["huge_count"] += 1
+        if self.watch_mode:
+            new = [t for t in types if t not in self.mon_types]
+            for t in new:
+                self.mon.subscribe(t)
+                self.mon_types.add(t)
+            if new:
+                w.quiesce(limit=100000)
+            want = ch.flag("iv.watch", 1, 2)
+            if want != self.watching:
+                (self.watcher.subscribe if want else self.watcher.unsubscribe)(C.MT_MESSAGE_TRAFFIC)
+                self.watching = want
+                w.quiesce()
+                self.t(f"watcher {'subscribes to' if want else 'unsubscribes from'} MESSAGE_TRAFFIC")
         self.res.enumerated.setdefault("distinct_types", set()).add(str(d))
         self.t(f"interval: {d} distinct types from {types[0] if types else '-'} x{per} each")
         sent = 0
@@ -148,6 +181,10 @@ class StatsRun:
             n = 2 + self.ch.pick("cfg.nint", 6)
             for _ in range(n):
                 self.interval()
+            if self.watch_mode and not self.watching:
+                self.watcher.subscribe(C.MT_MESSAGE_TRAFFIC)
+                self.watching = True
+                self.w.quiesce()
             self.w.advance(1.1)
             self.w.step()
             self.w.step()
@@ -175,9 +212,11 @@ class StatsRun:
         mon_tx = self.mon.sock.peer.tx_frames
         # countable events, by sequence number
         events = []   # (seq, type, origin)
+        etime = {}    # seq -> virtual time
         for fr in net.reads:
             if fr.complete and fr.hdr.msg_type not in NOT_DATA:
                 events.append((fr.done_seq, fr.hdr.msg_type, "client"))
+                etime[fr.done_seq] = fr.t
         acks = []
         optional = []
         for wfr in mon_tx:
@@ -201,6 +240,7 @@ class StatsRun:
                     continue
                 res.probes["notices_counted"] += 1
             events.append((wfr.seq, h.msg_type, "manager"))
+            etime[wfr.seq] = wfr.t
         events.sort()
         # when did the monitor's view become complete?
         sub_ack = None
@@ -209,6 +249,8 @@ class StatsRun:
                 sub_ack = wfr.seq
         first_sub = [w_.seq for w_ in mon_tx if w_.hdr.msg_type == C.MT_ACKNOWLEDGE]
         view_from = first_sub[1] if len(first_sub) > 1 else (first_sub[0] if first_sub else 0)
+        if self.watch_mode:
+            view_from = max(view_from, self.view_seq)
 
         def counts_between(lo, hi):
             c = Counter()
@@ -276,7 +318,9 @@ class StatsRun:
         # ---------------- MESSAGE_TRAFFIC
         groups = {}
         order = []
-        for wfr in mon_tx:
+        traffic_tx = self.watcher.sock.peer.tx_frames if self.watch_mode else mon_tx
+        stamps = {}
+        for wfr in traffic_tx:
             if wfr.hdr.msg_type == C.MT_MESSAGE_TRAFFIC and wfr.hdr.src_mod_id == 0 and wfr.hdr.send_time < TAG_BASE:
                 if len(wfr.payload) != 408:
                     res.add("C18", "traffic_size", f"MESSAGE_TRAFFIC of {len(wfr.payload)} bytes")
@@ -287,11 +331,20 @@ class StatsRun:
                 if seqno not in groups:
                     groups[seqno] = []
                     order.append(seqno)
+                    stamps[seqno] = (t0, t1)
                 groups[seqno].append((wfr, sub_seqno, types, cnts))
         prev_seq = None
+        prev_no = None
         for seqno in order:
             subs = groups[seqno]
             first = subs[0][0].seq
+            if self.watch_mode and (prev_no is None or seqno != prev_no + 1):
+                # the previous report was not seen (nobody was subscribed): the interval is delimited by the
+                # report's own start timestamp; messages handled exactly at that instant may fall either side
+                self.judge_by_time(seqno, subs, first, stamps[seqno][0], events, etime, view_from)
+                prev_seq, prev_no = subs[-1][0].seq, seqno
+                continue
+            prev_no = seqno
             if prev_seq is None or prev_seq < view_from:
                 prev_seq = subs[-1][0].seq
                 continue
@@ -340,7 +393,7 @@ class StatsRun:
         if client_events:
             last_traffic = max((g[0][0].seq for g in groups.values()), default=None)
             unreported = [e for e in client_events if last_traffic is None or e[0] > last_traffic]
-            if unreported:
+            if unreported and not self.watch_mode:     # (in watcher mode reports may legitimately go unseen)
                 res.add("C18", "traffic_never_reported",
                         f"{len(unreported)} forwarded messages (first: type {unreported[0][1]}) were followed by a full "
                         f"reporting period but no MESSAGE_TRAFFIC report covers them "
@@ -355,6 +408,51 @@ class StatsRun:
 
 def run(choices, forced=None) -> RunResult:
     return StatsRun(choices, forced).run()
+
+
+def _judge_by_time(self, seqno, subs, first, start_ts, events, etime, view_from):
+    res = self.res
+    if start_ts <= self.view_t:
+        return          # the interval began before the monitor's view was complete
+    lower, upper = Counter(), Counter()
+    for s_, t_, _o in events:
+        if s_ >= first or s_ <= view_from:
+            continue
+        tm = etime.get(s_, 0.0)
+        if tm > start_ts:
+            lower[t_] += 1
+        if tm >= start_ts:
+            upper[t_] += 1
+    got = {}
+    listed = Counter()
+    for wfr, sub_seqno, types, cnts in subs:
+        for t, c in zip(types, cnts):
+            if t == -1 and c == 0:
+                continue
+            listed[t] += 1
+            got[t] = got.get(t, 0) + c
+    res.probes["traffic_reports_after_gap_checked"] += 1
+    dup = [t for t, n in listed.items() if n > 1]
+    if dup:
+        res.add("C18", "traffic_duplicate_entry", f"MESSAGE_TRAFFIC seqno {seqno}: type {dup[0]} is listed {listed[dup[0]]} times")
+    for t, g in got.items():
+        if t in (C.MT_ACKNOWLEDGE, C.MT_FAILED_MESSAGE):
+            continue
+        if g > (upper.get(t, 0) & 0xFFFF) and upper.get(t, 0) < 65536:
+            res.add("C18", "traffic_stale_counts",
+                    f"MESSAGE_TRAFFIC seqno {seqno} (interval starting at t={start_ts:.3f}) reports {g} messages of type {t}; "
+                    f"at most {upper.get(t, 0)} were handled in that interval")
+            return
+    for t, lo in lower.items():
+        if t in (C.MT_ACKNOWLEDGE, C.MT_FAILED_MESSAGE):
+            continue
+        if got.get(t, 0) < (lo & 0xFFFF) and lo < 65536:
+            res.add("C18", "traffic_missing_type", f"MESSAGE_TRAFFIC seqno {seqno}: type {t} was handled {lo}x in the interval "
+                                                   f"but {got.get(t, 0)} are reported")
+            return
+
+
+StatsRun.judge_by_time = _judge_by_time
 
 
 def det_cases(tier):
